@@ -467,6 +467,22 @@ def _exit_stack(stmts: list, counter: list) -> list:
                 out.extend(_protected(first, st.body[1:], counter, st))
                 counter[0] += 1
                 continue
+            # a context entered under a condition:  with ExitStack() as s: if c: e = s.enter_context(CM) ; A  else: B   REST
+            #   ->  if c: with CM as e: A ; REST   else: B ; REST
+            decls = [b for b in st.body if isinstance(b, ast.AnnAssign) and b.value is None]
+            core = [b for b in st.body if not (isinstance(b, ast.AnnAssign) and b.value is None)]
+            if core and isinstance(core[0], ast.If) and core[0].body and len(uses) == 1 and sum(len(list(ast.walk(s_))) for s_ in core[1:]) <= 300:
+                f0 = core[0].body[0]
+                v0 = getattr(f0, "value", None) if isinstance(f0, (ast.Assign, ast.AnnAssign)) else None
+                if isinstance(v0, ast.Call) and isinstance(v0.func, ast.Attribute) and v0.func.attr == "enter_context" and isinstance(v0.func.value, ast.Name) and v0.func.value.id == sv and len(v0.args) == 1 and not v0.keywords:
+                    tg0 = f0.targets[0] if isinstance(f0, ast.Assign) else f0.target
+                    if isinstance(tg0, ast.Name):
+                        rest = core[1:]
+                        inner = ast.copy_location(ast.With(items=[ast.withitem(context_expr=v0.args[0], optional_vars=ast.Name(id=tg0.id, ctx=ast.Store()))], body=core[0].body[1:] + [clone(s_) for s_ in rest]), st)
+                        out.extend(decls)
+                        out.append(ast.copy_location(ast.If(test=core[0].test, body=[inner], orelse=list(core[0].orelse) + rest), st))
+                        counter[0] += 1
+                        continue
             # registered under a condition:  with ExitStack() as s: if c: s.callback(F, a) ; X   REST
             #   ->  if c: try: X ; REST  finally: F(a)   else: REST
             if isinstance(first, ast.If) and not first.orelse and first.body and _is_callback(first.body[0], sv) and len(uses) == 1 and sum(len(list(ast.walk(s_))) for s_ in st.body[1:]) <= 200:
